@@ -587,6 +587,84 @@ def gen_listform(first_versions):
                 yield {'history': [['merge', v0, s0], op]}
 
 
+# ------------------------------------------------------------------------------------------------ wide stores
+# The BFS suites use two observation dates, so a store never exceeds a dozen rows. Sorting by stamp is only order preserving for
+# publications that SHARE a stamp if it is stable, and pandas' default sort is an insertion sort (stable) only up to 16 elements:
+# "of several sharing a stamp the one merged last" can therefore only be decided on stores with more than 16 rows.
+
+WIDE_N = 9
+WIDE_DATES = [pd.Timestamp('2019-06-03') + pd.Timedelta(days=i) for i in range(WIDE_N)]
+# the two stamps (and the read time between them) lie inside ONE millisecond: stamps are compared to the microsecond
+WS = [datetime.datetime(2020, 1, 1, 12, 0, 0, 10), datetime.datetime(2020, 1, 1, 12, 0, 0, 50)]
+WREADS = [('before', -0.5, datetime.datetime(2020, 1, 1, 12, 0, 0, 5)), ('s1', 0, WS[0]), ('s1..s2', 0.5, datetime.datetime(2020, 1, 1, 12, 0, 0, 30)),
+          ('s2', 1, WS[1]), ('None', 99, None)]
+WIDE_VALS = ['1', '2', 'nan', 'alt', 'half']          # the same value on every date / NaN / alternating 1,2 / only the even dates
+
+
+def _wide_series(code, k):
+    if code == 'half':
+        idx = [d for i, d in enumerate(WIDE_DATES) if i % 2 == 0]
+        return pd.Series([10.0 + k] * len(idx), index=pd.DatetimeIndex(idx), dtype=float)
+    vals = {'1': [1.0] * WIDE_N, '2': [2.0] * WIDE_N, 'nan': [float('nan')] * WIDE_N, 'alt': [1.0 + (i % 2) for i in range(WIDE_N)]}[code]
+    return pd.Series(vals, index=pd.DatetimeIndex(WIDE_DATES), dtype=float)
+
+
+def gen_wide(maxlen):
+    import itertools
+    for n in range(2, maxlen + 1):
+        for codes in itertools.product(WIDE_VALS, repeat=n):
+            for stamps in itertools.combinations_with_replacement(range(2), n):
+                yield {'pubs': [[c, s_] for c, s_ in zip(codes, stamps)]}
+
+
+def check_wide(case):
+    from pyg_base import Bi, bi_merge, bi_read
+    out = Out()
+    pubs = case['pubs']
+    label = 'merge ' + ' ; '.join('%s@s%d' % (c, s_ + 1) for c, s_ in pubs) + ' over %d dates' % WIDE_N
+    store = None
+    model = {i: [] for i in range(WIDE_N)}        # date -> [(stamp, value)] in merge order
+    try:
+        for k, (code, si) in enumerate(pubs):
+            ser = _wide_series(code, k)
+            store = bi_merge(store, Bi(ser, WS[si]))
+            out.call()
+            for d, v in zip(ser.index, ser.values):
+                model[WIDE_DATES.index(d)].append((si, float(v)))
+    except Exception as e:
+        out.viol('wide-merge-raised', '%s raised %s: %s' % (label, type(e).__name__, e))
+        return out
+    same_stamp = len(set(s_ for _, s_ in pubs)) < len(pubs)
+    for tname, tpos, T in WREADS:
+        out.sub()
+        try:
+            res = bi_read(store.copy(), asof=T, what=-1)
+            out.call()
+            if isinstance(res, pd.DataFrame):
+                res = res.iloc[:, 0]
+            got = {WIDE_DATES.index(pd.Timestamp(k)): float(v) for k, v in zip(res.index, res.values)}
+        except Exception as e:
+            out.viol('wide-read-raised', '%s then bi_read(asof=%s) raised %s: %s' % (label, tname, type(e).__name__, e))
+            continue
+        exp = {}
+        for i in range(WIDE_N):
+            vis = sorted([p for p in model[i] if p[0] <= tpos], key=lambda p: p[0])        # stable: (stamp, merge order)
+            if not vis:
+                continue
+            nn = [v for _, v in vis if v == v]
+            exp[i] = nn[-1] if nn else float('nan')
+        bad = [i for i in set(exp) | set(got) if i not in exp or i not in got or not cell_eq(exp[i], got[i])]
+        if bad:
+            i = min(bad)
+            out.viol('wide-read-wrong', '%s (store of %d rows) then bi_read(asof=%s): date #%d reads %r, expected %r (latest value published with stamp <= T, of several '
+                     'sharing a stamp the one merged last)' % (label, len(store), tname, i, got.get(i, 'no row'), exp.get(i, 'no row')),
+                     same_stamp=same_stamp, rows_over_16=len(store) > 16)
+    if same_stamp:
+        out.nontrivial()
+    out.cls('wide-%s-%s' % ('same-stamp' if same_stamp else 'distinct', 'big' if len(store) > 16 else 'small'))
+    return out
+
+
 def suites(tier, seed):
     from mc.engine import Suite
     nv = len(VERSIONS)
@@ -609,6 +687,10 @@ def suites(tier, seed):
         # one level deeper over a single date: a revert (1, 2, 1) / NaN-in-the-middle needs three publications of one date
         History('onedate', depth + 1, rule % (depth + 1, n1) + '; versions restricted to date d1',
                 dict(common, dates=1, versions=n1), ONE_DATE_VERSIONS),
+        Suite('wide', lambda: gen_wide(3 if tier == 'quick' else 4), check_wide,
+              rule='stores of more than 16 rows: every sequence of 2..%d publications over %d observation dates (the same value on every date, NaN, alternating, '
+                   'every other date) x non-decreasing stamps from {s1, s2}; reads at s1, s2 and latest against the publication-list model; non-trivial = two '
+                   'publications share a stamp' % (3 if tier == 'quick' else 4, WIDE_N), bounds=dict(dates=WIDE_N, max_publications=3 if tier == 'quick' else 4)),
         Suite('listform', lambda: gen_listform(first), check_history,
               rule=lrule % (' and bi_merge(bi_merge(None, o), [p, q]) for every triple o, p, q' if first else ''),
               bounds=dict(common, list_length=2, merges_before_the_list=1 if first else 0)),
